@@ -55,6 +55,7 @@ fn main() {
     "parsetime" => { use std::io::Read; mech::install_quiet_panic_hook(); let mut s = String::new(); std::io::stdin().read_to_string(&mut s).unwrap(); let h = std::thread::Builder::new().stack_size(1024 << 20).spawn(move || { let t0 = std::time::Instant::now(); let r = std::panic::catch_unwind(std::panic::AssertUnwindSafe(|| mech_syntax::parser::parse(&s))); println!("{} ms {}", t0.elapsed().as_millis(), match r { Ok(Ok(_)) => "ok", Ok(Err(_)) => "err", Err(_) => "panic" }); }).unwrap(); h.join().unwrap(); }
     "fmtprobe" => fmtprobe(),
     "gramprobe" => gramprobe(),
+    "c10probe" => c10probe(),
     "docprobe" => docprobe(),
     "compileprobe" => compileprobe(),
     "fsmprobe" => fsmprobe(),
@@ -202,6 +203,28 @@ fn fmtprobe() {
     }
     println!("{} cases: {} ok, {} discarded", n, ok, disc);
     for (k, (cnt, ex)) in hist { println!("{:5}  {}   e.g. {}", cnt, k, ex); }
+  }).unwrap();
+  h.join().unwrap();
+}
+
+/// dev probe: documents of generated C10 cases that fail to parse
+fn c10probe() {
+  use proptest::strategy::{Strategy, ValueTree};
+  use proptest::test_runner::{Config, TestRunner, TestRng, RngAlgorithm};
+  mech::install_quiet_panic_hook();
+  let args: Vec<String> = std::env::args().collect();
+  let n: usize = args.get(2).and_then(|s| s.parse().ok()).unwrap_or(300);
+  let h = std::thread::Builder::new().stack_size(512 << 20).spawn(move || {
+    let known = engine::Known::load("C10");
+    let strat = props::c10::C10::strategy(engine::Tier::Quick, &known);
+    let mut runner = TestRunner::new_with_rng(Config::default(), TestRng::from_seed(RngAlgorithm::ChaCha, &[7u8; 32]));
+    let (mut bad, mut shown) = (0, 0);
+    for _ in 0..n {
+      let case = strat.new_tree(&mut runner).unwrap().current();
+      let doc = props::c10::C10::describe(&case);
+      if mech_syntax::parser::parse(&doc).is_err() { bad += 1; if shown < 6 { shown += 1; println!("=== does not parse ===\n{}\n", doc); } }
+    }
+    println!("{} of {} documents do not parse", bad, n);
   }).unwrap();
   h.join().unwrap();
 }
